@@ -11,9 +11,9 @@
 (*   success -> playing reactor;                                           *)
 (*   disconnect(msg) -> LoginDisconnect(msg), or VersionMismatch(ver) for  *)
 (*        the two "Outdated ..." texts.                                    *)
-(* An admissible script encrypts at most once and before compressing,      *)
-(* waits for the answer to a request before switching modes, and ends with *)
-(* success or disconnect.                                                  *)
+(* An admissible script encrypts at most once and compresses at most once  *)
+(* (in either order), waits for the answer to a request before switching   *)
+(* modes, and ends with success or disconnect.                             *)
 (*                                                                         *)
 (* Server steps: <<"enc", online>> <<"comp", thr>> <<"plug", id>>          *)
 (*               <<"succ">> <<"disc", kind>>                               *)
@@ -36,9 +36,10 @@ Ends == {<<"succ">>} \cup {<<"disc", k>> : k \in DiscKinds}
 
 Kinds(s) == [j \in 1..Len(s) |-> s[j][1]]
 Count(s, k) == Cardinality({j \in 1..Len(s) : s[j][1] = k})
+\* both orders of encryption and compression are explored (a vanilla server encrypts first, but the
+\* property quantifies over every order a server may take)
 Admissible(s) ==
   /\ Count(s, "enc") <= 1 /\ Count(s, "comp") <= 1
-  /\ \A a, b \in 1..Len(s) : (s[a][1] = "comp" /\ s[b][1] = "enc") => b < a
 
 ScriptsFor(p) == {s \o <<e>> : s \in {t \in UNION {[1..n -> Steps(p)] : n \in 0..MaxLen} : Admissible(t)}, e \in Ends}
 
